@@ -477,8 +477,10 @@ MANIFEST = {
              "is not changed by more fuel; every leaf of a returned estimand is a single-world interventional term (C06 part); "
              "error taxonomy of the first lines. Soundness of the returned value and of Zero has NO theorem (it inherits F10 from "
              "ID* and adds F11 and the unstarred exchange of conditions); the check decides it by correspondence with the real "
-             "code plus exact evaluation of P(outcomes, conditions)/P(conditions) on sampled functional SCMs and lists the "
-             "known wrong answers as open findings keyed by minimal failing inputs."),
+             "code plus exact evaluation of P(outcomes, conditions)/P(conditions) on sampled functional SCMs; every wrong answer is "
+             "attributed to the first step of IDC*'s chain of claims that exact evaluation shows to be broken (reassociation, "
+             "exchange:conditions, exchange:separation, inherited from ID*, F11) and those steps are listed as open findings; three "
+             "small defects were fixed (2281796, 618b4aa, b9b2278)."),
     "note": ("Trusted: Lean kernel + standard axioms; hand-written models (ID*, counterfactual graph, d-separation of the sep "
              "family, Expression.conditional) tied to the code by differential testing under all set-iteration orders; the "
              "reading convention of estimands; sampled models (8 per case, P(conditions) > 0)."),
